@@ -6,6 +6,7 @@ import (
 	"fmt"
 	"os"
 	"strings"
+	"sync"
 
 	"github.com/oasisprotocol/oasis-core/go/storage/mkvs/checkpoint"
 	"github.com/oasisprotocol/oasis-core/go/storage/mkvs/node"
@@ -137,6 +138,7 @@ func c12concInstance(tr c12tree, backend string, cp *c12cp, threads [][]c12call)
 	}
 	var results []c12concResult
 	var during []string
+	var mu sync.Mutex // the same bodies also run free under the race detector
 	inst := &conc.Instance{Close: func() { ndb.Close() }}
 	for ti, calls := range threads {
 		ti, calls := ti, calls
@@ -148,10 +150,14 @@ func c12concInstance(tr c12tree, backend string, cp *c12cp, threads [][]c12call)
 					data[len(data)/2] ^= 0x10
 				}
 				done, err := rs.RestoreChunk(kv.Ctx, uint64(c.Chunk), bytes.NewReader(data))
+				mu.Lock()
 				results = append(results, c12concResult{ti, c, done, err})
+				mu.Unlock()
 				if !done {
 					if w := visibleDuringRestore(ndb, root); w != "" {
+						mu.Lock()
 						during = append(during, w)
+						mu.Unlock()
 					}
 				}
 			}
@@ -239,6 +245,12 @@ func runC12Conc(r *ev.Run) {
 		fmt.Println("replay: property held")
 		os.Exit(0)
 	}
+	if os.Getenv("VERIF_PHASE") == "race" {
+		conc.RaceRun(r, c12concScenarios(r, dir), c12raceIters(r))
+		os.RemoveAll(dir)
+		r.Set("race_rule", "free-running race-detector pass over the concurrency scenarios of the conc phase (same thread bodies as ordinary goroutines in a -race build); complements the cooperative exploration, which cannot see unsynchronised accesses between scheduling points")
+		r.Finish()
+	}
 	r.Fork(ev.Workers())
 	scs := c12concScenarios(r, dir)
 	conc.Explore(r, "kvmc-conc", scs)
@@ -251,4 +263,11 @@ func runC12Conc(r *ev.Run) {
 	r.Set("conc_preemption_bound", b)
 	r.Assume("concurrency phase: threads are preempted only at lock acquisitions of the restorer / node database and at badger reads and durable writes (a free-running -race pass covers unsynchronised accesses); one chunk is never sent by two callers at the same time (the production dispatcher hands a chunk to one fetcher at a time)")
 	r.Finish()
+}
+
+func c12raceIters(r *ev.Run) int {
+	if r.Thorough() {
+		return 40
+	}
+	return 10
 }
